@@ -131,6 +131,8 @@ def classify_for(C, s):
             j = int(v.name[len('cellIndexes['):-1])
             if cond['op'] == '<' and inc['op'] == '++' and bound == sp.Symbol('numberOfCellsAlongAxes_[%d]' % j, integer=True):
                 return ('range', j)
+            if cond['op'] == '<' and inc['op'] == '++' and isinstance(bound, sp.Basic):
+                return ('partial', j, bound, 'index loop %s; %s; %s is not the full range of axis %d' % (pp(init['e']), pp(cond), pp(inc), j))
             return ('?', 'index loop %s; %s; %s is not the full range of axis %d' % (pp(init['e']), pp(cond), pp(inc), j))
     return ('?', 'unrecognised loop %s' % pp(cond))
 
@@ -180,6 +182,50 @@ def congruent(a, b, n):
         return x.replace(lambda t: isinstance(t, sp.Mod) and t.args[1] == n, lambda t: t.args[0])
     d = sp.expand(strip_mod(strip_mod(a)) - strip_mod(strip_mod(b)))
     return sp.expand(d.subs(n, 0)) == 0
+
+
+
+
+def sign_blind_partial(j, bound):
+    """bound of an index loop over axis j: text when, on witness sizes, it is below n for some offset d of axis j and takes the same value for d and -d"""
+    n_ = sp.Symbol('numberOfCellsAlongAxes_[%d]' % j, integer=True)
+    nm_ = [a for a in bound.free_symbols if a.name.startswith('numberOfCellsAlongAxesMinusOne_[%d]' % j)]
+    off = [a for a in bound.free_symbols if a.name == 'indexOffset[%d]' % j]
+    if not off or any(a not in (n_, off[0]) and a not in nm_ for a in bound.free_symbols):
+        return None
+    short = None
+    for n in (2, 3, 4):
+        for d in range(1, n):
+            env = {n_: n}
+            env.update({a: n - 1 for a in nm_})
+            ep, em = dict(env), dict(env)
+            ep[off[0]], em[off[0]] = d, -d
+            vp, vm = bound.subs(ep), bound.subs(em)
+            if not (vp.is_Integer and vm.is_Integer) or vp != vm:
+                return None
+            if vp < n:
+                short = short or (n, d, int(vp))
+    if short is None:
+        return None
+    return 'which is %d of the %d columns for an offset of +%d and of -%d alike' % (short[2], short[0], short[1], short[1])
+
+
+def extra_guard(c):
+    """c = (offset[k] != 0) && rest, where rest only involves grid sizes and is false for a 1-cell axis: (k, rest, substitution), else None"""
+    if not isinstance(c, sp.And):
+        return None
+    offs = [a for a in c.args if isinstance(a, sp.Ne) and a.args[1] == 0 and isinstance(a.args[0], sp.Symbol) and a.args[0].name.startswith('indexOffset[')]
+    if len(offs) != 1:
+        return None
+    rest = sp.And(*[a for a in c.args if a is not offs[0]])
+    syms = rest.free_symbols
+    if not syms or not all('numberOfCells' in a.name for a in syms):
+        return None
+    sub = {a: (0 if 'MinusOne' in a.name else 1) for a in syms}
+    v = rest.subs(sub)
+    if v == sp.false:
+        return int(offs[0].args[0].name[len('indexOffset['):-1]), rest, sub
+    return None
 
 
 def run(fx, R, tier):
@@ -339,6 +385,11 @@ def check_translate(fx, R, gq, dim):
                         R.violated('O3', '%s::translate:axis%d:reduced-offset' % (cname, k_), 'the blanking of axis %d is driven by `%s`, the offset reduced modulo the number of cells: a translation by d cells moves '
                                    'min(|d|, n) columns out of the window, but only |d mod n| are blanked - for |d| >= n (a whole turn or more, inside the quantifier) stale cells survive although their map '
                                    'location has left the window' % (k_, c.args[0]), fx.rel(s['loc']), 'E-ORD')
+                    elif extra_guard(c) is not None:
+                        k_, rest_, sub_ = extra_guard(c)
+                        R.violated('O3', '%s::translate:axis%d:extra-guard' % (cname, k_), 'the blanking of axis %d runs only when `%s`: besides a non-zero offset it requires %s, which is false for a grid with %s '
+                                   '(grids of 1 cell per axis are inside the quantifier); there a non-zero translation along the axis moves every cell out of the window, yet nothing is blanked and the old values '
+                                   'keep being read' % (k_, pp(s['c']), rest_, ', '.join('%s = %s' % (a_, b_) for a_, b_ in sub_.items())), fx.rel(s['loc']), 'E-ORD')
                     else:
                         R.undecided('O3', '%s::translate' % cname, 'top-level branch `%s` is not an axis block `if (offset[k])`' % pp(s['c']))
                     unrecognised = True
@@ -517,7 +568,17 @@ def check_block(fx, R, C, cname, f, k, dim, blk):
             if b:
                 events.append({'kind': 'stray-blank', 'loc': s['loc']})
                 return
-        if s['k'] in ('Decl', 'Null'):
+        if s['k'] == 'Decl':
+            for v in s['vars']:
+                if v.get('init') is not None and v['t'].get('c') == 'int' and not v['t'].get('ref'):
+                    try:
+                        val = C.ev(v['init'])
+                    except sym.Unsupported:
+                        continue
+                    if isinstance(val, sp.Basic):
+                        C.st.locals[v['id']] = val
+            return
+        if s['k'] == 'Null':
             return
         R.undecided('O3', inst, 'statement not recognised in an axis block: %s' % fx.rel(s['loc']))
 
@@ -529,6 +590,13 @@ def check_block(fx, R, C, cname, f, k, dim, blk):
             return
         if s['k'] == 'For':
             cl = classify_for(C, s)
+            if cl[0] == 'partial':
+                why = sign_blind_partial(cl[1], cl[2])
+                if why:
+                    R.violated('O6', '%s:axis%d-range:sign-blind' % (inst, cl[1]), 'inside the blanking of axis %d the loop over axis %d stops at %s, %s: the cells it leaves out are the same whatever the SIGN of the offset along axis %d, '
+                               'but the slab that the pass along axis %d has already blanked lies at opposite ends of the axis for opposite signs (and the two slabs differ for 0 < |d| < n), so for one of the '
+                               'signs cells entering the window along axis %d are left with their old values' % (k, cl[1], cl[2], why, cl[1], cl[1], k), fx.rel(s['loc']), 'E-ORD')
+                    return
             if cl[0] != 'range':
                 R.undecided('O6', inst, 'loop inside an offset loop is not a full-range index loop: %s at %s' % (cl[-1], fx.rel(s['loc'])))
                 return
